@@ -10,6 +10,7 @@ import GoProbeModel.Spec.C12
 import GoProbeModel.Spec.C04
 import GoProbeModel.Spec.C19
 import GoProbeModel.Spec.C15
+import GoProbeModel.Spec.C03
 
 /-!
 `gpjudge`: executable specs. Reads lines `<Cxx> <case fields…> => <implementation output>` and
@@ -27,5 +28,6 @@ def main : IO Unit := DriverLoop.runJudge [
   ("C12", C12.judge),
   ("C04", C04.judge),
   ("C19", C19.judge),
-  ("C15", C15.judge)
+  ("C15", C15.judge),
+  ("C03", C03.judge)
 ]
